@@ -62,10 +62,11 @@ def build(variants=('asan',)):
 
 
 class Case:
-    __slots__ = ('id', 'lines', 'fork', 'horizon', 'meta')
+    __slots__ = ('id', 'lines', 'fork', 'horizon', 'meta', 'retried')
 
     def __init__(self, lines, meta=None, fork=False, horizon=0):
         self.id = None
+        self.retried = False
         self.lines = lines
         self.fork = fork
         self.horizon = horizon
@@ -124,6 +125,7 @@ class Driver:
         self.errpath = os.path.join(BUILD, 'err', '%s.%d.%d.txt' % (variant, os.getpid(), wid))
         os.makedirs(os.path.dirname(self.errpath), exist_ok=True)
         self.seq = 0
+        self.hang_retries = 0
 
     # -- process management
     def start(self):
@@ -319,6 +321,17 @@ class Driver:
             pending = pending[done:]
             if restart_why or (pending and restart_why is None and done < len(batch)):
                 self._restart(restart_why or 'dirty')
+        # a case that did not answer in time is run once more, alone, with six times the limit, before it is called a hang (a
+        # loaded machine must not turn into a verdict); at most a few times per driver, a library that really hangs hangs every time
+        for i, r in enumerate(results):
+            if r is not None and r.status == 'hang' and not cases[i].retried and self.hang_retries < 4:
+                self.hang_retries += 1
+                c = cases[i]
+                c2 = Case(list(c.lines), fork=c.fork, horizon=int((c.horizon or self.horizon) * 6))
+                c2.retried = True
+                r2 = self.run([c2])[0]
+                c.id = c2.id
+                results[i] = r2
         return results
 
 
